@@ -51,24 +51,24 @@ def c08():
         q = "quick" if (sc, ec) in [(1, 3), (0, 4), (3, 4), (4, 4)] else "thorough"
         w = f"c{sc}_{ec}"
         add("C08", f"c08_rows_view_{w}_d3", f"c08::rows_view(4, 4, {sc}, {ec}, 3, 0)", 6, q)
-        add("C08", f"c08_rows_view_{w}_d1x", f"c08::rows_view(4, 4, {sc}, {ec}, 1, 1)", 6, q)
+        add("C08", f"c08_rows_view_{w}_d1x", f"c08::rows_view(4, 4, {sc}, {ec}, 1, 29)", 6, q)
         add("C08", f"c08_rowsmut_viewmut_{w}_d2", f"c08::rowsmut_viewmut(4, 4, {sc}, {ec}, 2, 0)", 6, q)
-        add("C08", f"c08_rowsmut_viewmut_{w}_d1x", f"c08::rowsmut_viewmut(4, 4, {sc}, {ec}, 1, 1)", 6, q)
+        add("C08", f"c08_rowsmut_viewmut_{w}_d1x", f"c08::rowsmut_viewmut(4, 4, {sc}, {ec}, 1, 29)", 6, q)
         add("C08", f"c08_rows_viewmut_{w}_d3", f"c08::rows_viewmut(4, 4, {sc}, {ec}, 3, 0)", 6, "thorough")
         add("C08", f"c08_rows_view_{w}_d4", f"c08::rows_view(4, 4, {sc}, {ec}, 4, 0)", 6, "thorough")
-        add("C08", f"c08_rows_view_{w}_d2x", f"c08::rows_view(4, 4, {sc}, {ec}, 2, 1)", 6, "thorough")
+        add("C08", f"c08_rows_view_{w}_d2x", f"c08::rows_view(4, 4, {sc}, {ec}, 2, 29)", 6, "thorough")
         add("C08", f"c08_rowsmut_viewmut_{w}_d3", f"c08::rowsmut_viewmut(4, 4, {sc}, {ec}, 3, 0)", 6, "thorough")
-        add("C08", f"c08_rowsmut_viewmut_{w}_d2x", f"c08::rowsmut_viewmut(4, 4, {sc}, {ec}, 2, 1)", 6, "thorough")
+        add("C08", f"c08_rowsmut_viewmut_{w}_d2x", f"c08::rowsmut_viewmut(4, 4, {sc}, {ec}, 2, 29)", 6, "thorough")
     add("C08", "c08_rowsmut_viewmut_c1_3_d1_poke", "c08::rowsmut_viewmut(4, 4, 1, 3, 1, 2)", 6, "quick", also=["C04"])
     add("C08", "c08_rowsmut_owned_2x3_d1_poke", "c08::rowsmut_owned(2, 3, 1, 2)", 6, "quick")
-    add("C08", "c08_rowsmut_viewmut_c1_3_d1x_poke", "c08::rowsmut_viewmut(4, 4, 1, 3, 1, 3)", 6, "thorough", also=["C04"])
+    add("C08", "c08_rowsmut_viewmut_c1_3_d1x_poke", "c08::rowsmut_viewmut(4, 4, 1, 3, 1, 31)", 6, "thorough", also=["C04"])
     for (c, r) in [(0, 0), (1, 1), (1, 3), (3, 1), (2, 3), (3, 3)]:
         q = "quick" if (c, r) in [(0, 0), (1, 3), (2, 3)] else "thorough"
         add("C08", f"c08_rows_owned_{c}x{r}_d3", f"c08::rows_owned({c}, {r}, 3, 0)", 6, q)
         add("C08", f"c08_rowsmut_owned_{c}x{r}_d2", f"c08::rowsmut_owned({c}, {r}, 2, 0)", 6, q)
-        add("C08", f"c08_rowsmut_owned_{c}x{r}_d1x", f"c08::rowsmut_owned({c}, {r}, 1, 1)", 6, q)
+        add("C08", f"c08_rowsmut_owned_{c}x{r}_d1x", f"c08::rowsmut_owned({c}, {r}, 1, 29)", 6, q)
         add("C08", f"c08_rowsmut_owned_{c}x{r}_d3", f"c08::rowsmut_owned({c}, {r}, 3, 0)", 6, "thorough")
-        add("C08", f"c08_rows_owned_{c}x{r}_d2x", f"c08::rows_owned({c}, {r}, 2, 1)", 6, "thorough")
+        add("C08", f"c08_rows_owned_{c}x{r}_d2x", f"c08::rows_owned({c}, {r}, 2, 29)", 6, "thorough")
 
 
 c08()
@@ -81,9 +81,9 @@ def c09():
         q = "quick" if (pc, pr) in [(4, 4), (1, 4)] else "thorough"
         p = f"{pc}x{pr}"
         add("C09", f"c09_col_view_{p}_d3", f"c09::col_view({pc}, {pr}, 3, 0)", 6, q)
-        add("C09", f"c09_col_view_{p}_d1x", f"c09::col_view({pc}, {pr}, 1, 1)", 6, q)
+        add("C09", f"c09_col_view_{p}_d1x", f"c09::col_view({pc}, {pr}, 1, 29)", 6, q)
         add("C09", f"c09_colmut_viewmut_{p}_d2", f"c09::colmut_viewmut({pc}, {pr}, 2, 0)", 6, q)
-        add("C09", f"c09_colmut_viewmut_{p}_d1x", f"c09::colmut_viewmut({pc}, {pr}, 1, 1)", 6, q)
+        add("C09", f"c09_colmut_viewmut_{p}_d1x", f"c09::colmut_viewmut({pc}, {pr}, 1, 29)", 6, q)
         add("C09", f"c09_col_viewmut_{p}_d3", f"c09::col_viewmut({pc}, {pr}, 3, 0)", 6, "thorough")
         add("C09", f"c09_col_view_{p}_d4", f"c09::col_view({pc}, {pr}, 4, 0)", 6, "thorough")
         add("C09", f"c09_colmut_viewmut_{p}_d3", f"c09::colmut_viewmut({pc}, {pr}, 3, 0)", 6, "thorough")
@@ -94,12 +94,12 @@ def c09():
             add("C09", f"c09_col_oob_r{recv}_{p}", f"c09::col_oob({recv}, {pc}, {pr})", 6, q if pc == 4 else "thorough", kind="panic")
     add("C09", "c09_colmut_viewmut_4x4_d1_poke", "c09::colmut_viewmut(4, 4, 1, 2)", 6, "quick", also=["C04"])
     add("C09", "c09_colmut_owned_2x3_d1_poke", "c09::colmut_owned(2, 3, 1, 2)", 6, "quick")
-    add("C09", "c09_colmut_viewmut_4x4_d1x_poke", "c09::colmut_viewmut(4, 4, 1, 3)", 6, "thorough", also=["C04"])
+    add("C09", "c09_colmut_viewmut_4x4_d1x_poke", "c09::colmut_viewmut(4, 4, 1, 31)", 6, "thorough", also=["C04"])
     for (c, r) in [(1, 1), (1, 3), (3, 1), (2, 3), (3, 3)]:
         q = "quick" if (c, r) in [(1, 3), (2, 3)] else "thorough"
         add("C09", f"c09_col_owned_{c}x{r}_d3", f"c09::col_owned({c}, {r}, 3, 0)", 6, q)
         add("C09", f"c09_colmut_owned_{c}x{r}_d2", f"c09::colmut_owned({c}, {r}, 2, 0)", 6, q)
-        add("C09", f"c09_colmut_owned_{c}x{r}_d1x", f"c09::colmut_owned({c}, {r}, 1, 1)", 6, q)
+        add("C09", f"c09_colmut_owned_{c}x{r}_d1x", f"c09::colmut_owned({c}, {r}, 1, 29)", 6, q)
         add("C09", f"c09_colmut_owned_{c}x{r}_d3", f"c09::colmut_owned({c}, {r}, 3, 0)", 6, "thorough")
 
 
@@ -119,12 +119,15 @@ def c10():
             add("C10", f"c10_cells_view_{w}_p{prefix}_d2", f"c10::cells_view(4, 3, {sc}, {ec}, {prefix}, 2, 0, 0)", 6, q)
             add("C10", f"c10_cellsmut_viewmut_{w}_p{prefix}_d2", f"c10::cells_viewmut(4, 3, {sc}, {ec}, {prefix}, 2, 0, 0)", 6, q)
             add("C10", f"c10_cells_view_{w}_p{prefix}_d3", f"c10::cells_view(4, 3, {sc}, {ec}, {prefix}, 3, 0, 0)", 6, "thorough")
-        # exhaustive iteration after one step: keep the cell count small (2-row parent for wide windows)
-        q = "quick" if (sc, ec) in [(1, 3), (4, 4)] else "thorough"
-        pr = 3 if ec - sc <= 2 else 2
-        un = (ec - sc) * pr + 3
-        add("C10", f"c10_cells_view_{w}_p3_d1x", f"c10::cells_view(4, {pr}, {sc}, {ec}, 3, 1, 1, 0)", un, q)
-        add("C10", f"c10_cellsmut_viewmut_{w}_p0_d1x", f"c10::cells_viewmut(4, {pr}, {sc}, {ec}, 0, 1, 1, 0)", un, q)
+        # exhaustive iteration after one symbolic step, one harness per terminal operation
+        # (for / reverse / fold / rfold); a 2-row parent keeps the cell count and the unwind bound small
+        for xop, xn in ((0, "for"), (1, "rev"), (2, "fold"), (3, "rfold")):
+            mode = 1 | (xop << 2)
+            q = "quick" if (sc, ec) == (1, 3) else "thorough"
+            un = (ec - sc) * 2 + 3
+            add("C10", f"c10_cells_view_{w}_p3_{xn}", f"c10::cells_view(4, 2, {sc}, {ec}, 3, 1, {mode}, 0)", un, q)
+            add("C10", f"c10_cellsmut_viewmut_{w}_p0_{xn}", f"c10::cells_viewmut(4, 2, {sc}, {ec}, 0, 1, {mode}, 0)", un, q if xop in (0, 3) else "thorough")
+            add("C10", f"c10_cells_view3_{w}_p0_{xn}", f"c10::cells_view(4, 3, {sc}, {ec}, 0, 1, {mode}, 0)", (ec - sc) * 3 + 3, "thorough")
     add("C10", "c10_cellsmut_viewmut_c1_3_p0_d1_poke", "c10::cells_viewmut(4, 3, 1, 3, 0, 1, 2, 0)", 6, "quick", also=["C04"])
     add("C10", "c10_cellsmut_owned_2x2_p3_d1_poke", "c10::cells_owned(2, 2, 3, 1, 2, 2)", 6, "quick")
     # IntoIterator forms
@@ -132,12 +135,13 @@ def c10():
     add("C10", "c10_intoiter_mut_viewmut", "c10::cells_viewmut(4, 3, 1, 3, 2, 1, 0, 1)", 6, "quick")
     add("C10", "c10_cells_of_viewmut", "c10::cells_viewmut(4, 3, 1, 3, 3, 1, 0, 2)", 6, "quick")
     add("C10", "c10_intoiter_ref_viewmut", "c10::cells_viewmut(4, 3, 1, 3, 0, 1, 0, 3)", 6, "quick")
-    for (c, r) in [(0, 0), (1, 3), (3, 1), (2, 3), (3, 3)]:
+    for (c, r) in [(0, 0), (2, 2), (1, 3), (3, 1), (2, 3), (3, 3)]:
         q = "quick" if (c, r) in [(0, 0), (2, 3)] else "thorough"
         for via in (0, 1, 2, 3):
             add("C10", f"c10_cells_owned_{c}x{r}_v{via}_d2", f"c10::cells_owned({c}, {r}, 3, 2, 0, {via})", 6, q if via in (0, 2) else "thorough")
         add("C10", f"c10_cells_owned_{c}x{r}_v1_d1", f"c10::cells_owned({c}, {r}, 0, 1, 0, 1)", 6, q)
-        add("C10", f"c10_cells_owned_{c}x{r}_v3_d1x", f"c10::cells_owned({c}, {r}, 1, 1, 1, 3)", c * r + 3, q if c * r <= 6 else "thorough")
+        for xop, xn in ((0, "for"), (3, "rfold")):
+            add("C10", f"c10_cells_owned_{c}x{r}_v3_{xn}", f"c10::cells_owned({c}, {r}, 1, 1, {1 | (xop << 2)}, 3)", c * r + 3, "quick" if (c, r) in [(0, 0), (2, 2)] else "thorough")
 
 
 c10()
@@ -527,10 +531,31 @@ def c20():
 c20()
 
 
+# ---------------------------------------------------------------------------------------
+# Native replay twins for Engine B witnesses (tier "native": never run under Kani)
+def engb():
+    for w in (0, 1, 2):
+        add("C09", f"b_col_index_{w}", f"engb::b_col_index({w})", 1, "native", kind="panic")
+    for recv in (0, 1, 2):
+        for acc in range(6):
+            if recv == 1 and acc >= 3:
+                continue
+            add("C02", f"b_access_r{recv}_a{acc}", f"engb::b_access({recv}, {acc})", 1, "native", kind="panic")
+    for parent in (0, 1):
+        add("C03", f"b_view_{parent}", f"engb::b_view({parent})", 1, "native", kind="panic")
+    for w in range(5):
+        add("C20", f"b_ctor_{w}", f"engb::b_ctor({w})", 1, "native", kind="panic")
+
+
+engb()
+
+
 def select(prop, tier):
     out = []
     for h in CATALOG:
         if prop not in h.props():
+            continue
+        if h.tier == "native":
             continue
         if tier == "quick" and h.tier != "quick":
             continue
@@ -541,6 +566,10 @@ def select(prop, tier):
 def gen_rs():
     lines = ["// @generated by /verif/lib/catalog.py -- do not edit", ""]
     for h in CATALOG:
+        if h.tier == "native":
+            lines.append("#[cfg(not(kani))]")
+            lines.append(f"pub fn {h.name}() {{ crate::{h.call} }}")
+            continue
         lines.append("#[cfg_attr(kani, kani::proof)]")
         lines.append(f"#[cfg_attr(kani, kani::unwind({h.unwind}))]")
         for (orig, repl) in h.stubs:
